@@ -64,7 +64,7 @@ def coarse(cls):
 
 
 def key_of(r):
-    tail = ":hang" if "hang" in r else ":abort" if "abort" in r else ""
+    tail = ":hang" if "hang" in r else ":abort" if "abort" in r else ":overrun" if "overrun" in r else ""
     if r["fam"] == "gf2":
         return "gf2:%s:%s%s" % (r["op"], re.sub(r"(^|,)field=[^,]*,?", "", r.get("cls", "")), tail)
     if r["fam"] == "qr":
@@ -320,7 +320,7 @@ def run(ctx):
                         heavy[hk] += 1
                         if heavy[hk] > HEAVY_KEEP:
                             continue
-                if not small and stride > 1 and '"hang":1' not in l and '"abort":1' not in l:
+                if not small and stride > 1 and '"hang":1' not in l and '"abort":1' not in l and '"overrun":' not in l:
                     c = _CLS.search(l)
                     if zlib.crc32(("%s|%s|%s" % (g, _nof(l), c.group(0) if c else "")).encode()) % stride:
                         continue
@@ -447,6 +447,7 @@ def run(ctx):
             rs = keys[k]
             r0 = min(rs, key=lambda r: sum(val16(v) if isinstance(v, list) else 0 for kk, v in r.items() if kk in ("a", "b", "mod")))
             what = ("did not return (hang)" if "hang" in r0 else "stopped on an assertion" if "abort" in r0
+                    else "wrote beyond the documented length of an output" if "overrun" in r0
                     else "returned a value different from the specification")
             text = ("%s [%s edition, build %s, W=%s] %s on class '%s' (alias %s): %d line(s) of this class, %d failing line(s) in "
                     "%d class(es) for this function; example %s"
